@@ -10,6 +10,7 @@ Rust panic-freedom itself is additionally decided by the correspondence: every o
 runs under catch_unwind.
 -/
 import Proofs.Lemmas.Router.Rp1_DConnect
+import Proofs.Lemmas.Router.Rp4_NoPanic
 namespace C03
 open Router
 
@@ -157,6 +158,96 @@ theorem link_ops_never_panic {cfg : Config} {s : RState} (hr : Reachable cfg s) 
     step { s with oracle := o } op ≠ .error (.panic msg) := fun h => by
   rcases router_never_panics_partial hr op o msg h with ⟨⟨_, e, _⟩, _⟩ | ⟨⟨_, e, _⟩, _⟩ <;>
     (subst e; rcases hop with ⟨_, _, e'⟩ | ⟨_, e'⟩ <;> cases e')
+
+/-! ### request conservation and the full `router_never_panics` -/
+
+/-- C03 (request conservation). In every reachable state, for every connection id: the data requests
+    the connection owns — in its tracker, parked in the waiter lists of the filter logs, on their way
+    back in `notifications` (`keysOf`, as `(filter, filter_idx)` pairs) — are at most one per filter,
+    each for a filter the connection is subscribed to (so an id without connection owns none: a
+    reused slot id finds no stale request), each carrying the index of the log its filter reads;
+    a parked request sits in the waiter list of exactly that log; and the tracker saved for a
+    persistent session has at most one request per filter, all for saved subscriptions. This is the
+    invariant the two `debug_assert!(check_tracker_duplicates(..).is_none())` check. -/
+theorem request_conservation {cfg : Config} {s : RState} (hr : Reachable cfg s) :
+    (∀ id, ((keysOf s id).map (·.1)).Nodup) ∧
+    (∀ id c, getConn s id = some c → ∀ k ∈ keysOf s id, k.1 ∈ c.subscriptions) ∧
+    (∀ id, getConn s id = none → keysOf s id = []) ∧
+    (∀ id, ∀ k ∈ keysOf s id, s.datalog.filterIdx? (logPath k.1) = some k.2) ∧
+    (∀ (i : Nat) fd, s.datalog.native[i]? = some fd → ∀ w ∈ fd.waiters, w.2.filterIdx = i) ∧
+    (∀ cid ss, (cid, some ss) ∈ s.graveyard →
+      (ss.tracker.requests.map (·.filter)).Nodup ∧ ∀ r ∈ ss.tracker.requests, r.filter ∈ ss.subscriptions) := by
+  obtain ⟨hK, hW, hG⟩ := (RC.iff s).mp (RC.reachable hr)
+  refine ⟨hK.nodup, fun id c hc k hk => ?_, fun id hc => ?_, hK.idx, hW, fun cid ss hm => ?_⟩
+  · have := hK.subs id k hk
+    unfold subsOf at this; rw [hc] at this; exact this
+  · cases hk : keysOf s id with
+    | nil => rfl
+    | cons k l =>
+      have := hK.subs id k (by rw [hk]; simp)
+      unfold subsOf at this; rw [hc] at this; simp at this
+  · obtain ⟨a, b⟩ := hG (cid, some ss) hm ss rfl
+    exact ⟨a, fun r hr' => (b r hr').1⟩
+
+/-- what `keysOf` collects -/
+theorem keysOf_spec (s : RState) (id : Nat) (k : String × Nat) :
+    k ∈ keysOf s id ↔
+      (∃ c, getConn s id = some c ∧ ∃ r ∈ c.tracker.requests, (r.filter, r.filterIdx) = k) ∨
+      (∃ fd ∈ s.datalog.native, ∃ w ∈ fd.waiters, w.1 = id ∧ (w.2.filter, w.2.filterIdx) = k) ∨
+      (∃ w ∈ s.notifications, w.1 = id ∧ (w.2.filter, w.2.filterIdx) = k) := by
+  unfold keysOf
+  simp only [List.mem_append, mem_waiterKeys, notifKeys, mem_pickK, or_assoc]
+  refine or_congr ?_ Iff.rfl
+  unfold trackerKeys
+  cases hc : getConn s id with
+  | none => simp
+  | some c => simp [DataRequest.key]
+
+/-- hence every tracker — of a live connection or saved in the graveyard — passes
+    `check_tracker_duplicates`, in every reachable state -/
+theorem trackers_have_no_duplicate_filters {cfg : Config} {s : RState} (hr : Reachable cfg s) :
+    (∀ id c, getConn s id = some c → trackerNoDup c.tracker = true) ∧
+    (∀ cid ss, (cid, some ss) ∈ s.graveyard → trackerNoDup ss.tracker = true) :=
+  ⟨fun _ _ hc => (RC.reachable hr).tracker_nodup hc,
+   fun cid ss hm => (trackerNoDup_iff _).mpr ((request_conservation hr).2.2.2.2.2 cid ss hm).1⟩
+
+/-- C03 `router_never_panics`, in full: in every reachable state, whatever op comes next (any event
+    for any id, any batch of decoded packets, any CONNECT, consume, link-side push / drain) and
+    whatever the oracle, the step does not panic — no exception: the two dev-profile assertions
+    `debug_assert!(check_tracker_duplicates(..).is_none())` are excluded by request conservation. -/
+theorem router_never_panics {cfg : Config} {s : RState} (hr : Reachable cfg s) (op : Op) (o : List Choice)
+    (msg : String) : step { s with oracle := o } op ≠ .error (.panic msg) :=
+  step_no_panic ((Inv3.reachable hr).oracle o) op msg
+
+/-- a CONNECT never panics in a reachable state: clean or not, valid or invalid client id, takeover,
+    resumed session, `max_connections` reached or not -/
+theorem connect_never_panics {cfg : Config} {s : RState} (hr : Reachable cfg s) (o : List Choice)
+    (spec : ConnectSpec) (msg : String) : step { s with oracle := o } (.connect spec) ≠ .error (.panic msg) :=
+  router_never_panics hr _ o msg
+
+/-- a DeviceData event never panics in a reachable state, for any id and ANY batch of decoded
+    packets, SUBSCRIBE included -/
+theorem device_data_never_panics {cfg : Config} {s : RState} (hr : Reachable cfg s) (o : List Choice)
+    (id : Nat) (msg : String) : step { s with oracle := o } (.event id .deviceData) ≠ .error (.panic msg) :=
+  router_never_panics hr _ o msg
+
+/-- non-vacuity of the two assertion sites (kernel-evaluated on the executable form): a persistent
+    client subscribes to `t` twice (the second SUBSCRIBE creates no second request), its link drops,
+    it resumes (the restored tracker passes `check_tracker_duplicates`) and subscribes to `u` (the
+    `prepare_filter` assertion looks at a tracker with two requests): no step fails, and the tracker
+    holds one request per filter -/
+example :
+    (match runX (init ⟨10, 1024, 2, 10, .roundRobin⟩)
+        [(.connect ⟨0, "a", false, false, 0, none⟩, []),
+         (.push 0 (.subscribe 1 none [⟨"t", 1⟩]), []), (.push 0 (.subscribe 2 none [⟨"t", 1⟩]), []),
+         (.event 0 .deviceData, []), (.event 0 .disconnect, []),
+         (.connect ⟨1, "a", false, false, 0, none⟩, []),
+         (.push 1 (.subscribe 3 none [⟨"u", 0⟩]), []), (.event 0 .deviceData, [])] with
+     | .ok s =>
+       (match getConn s 0 with
+        | some c => decide (c.tracker.requests.map (fun r => r.filter) = ["t", "u"] ∧ trackerNoDup c.tracker = true)
+        | none => false)
+     | .error _ => false) = true := by decide
 
 /-- non-vacuity: reachable states exist in which these ops do something: two registered
     connections, then a stale Disconnect for a removed id and a Ready for a never-used id -/
